@@ -30,6 +30,7 @@ import (
 	"strconv"
 	"strings"
 	"sync"
+	"sync/atomic"
 	"syscall"
 	"time"
 
@@ -683,9 +684,23 @@ func c14Child(args []string) error {
 
 // ---------------------------------------------------------------- the parent
 
+// c14Hangs counts calls that did not return; after c14HangBudget of them the remaining files are not loaded
+// (each hang costs a 20 s watchdog; a loader that hangs on a whole family of files would take hours)
+var c14Hangs int32
+
+const c14HangBudget = 12
+
 func c14Shard(recipes []c14Recipe, dir string, res []*c14Obs) {
 	pending := recipes
 	for len(pending) > 0 {
+		if atomic.LoadInt32(&c14Hangs) >= c14HangBudget {
+			for _, rc := range pending {
+				o := c14Describe(rc, c14Bytes(rc))
+				o.Out, o.Imp = "Skipped", "Skipped"
+				res[rc.ID] = &o
+			}
+			return
+		}
 		cmd := exec.Command(os.Args[0], "c14-child")
 		cmd.Env = append(os.Environ(), "VERIF_C14_DIR="+dir)
 		stdin, _ := cmd.StdinPipe()
@@ -746,7 +761,11 @@ func c14Shard(recipes []c14Recipe, dir string, res []*c14Obs) {
 		cmd.Wait()
 		code := cmd.ProcessState.ExitCode()
 		if why == "exit" && code == 7 {
+			atomic.AddInt32(&c14Hangs, 1)
 			continue // the child's own watchdog fired; its observation has been received
+		}
+		if why == "silent" {
+			atomic.AddInt32(&c14Hangs, 1)
 		}
 		if why == "exit" && code == 3 {
 			fatal("c14: child failed: %s", stderr.String())
